@@ -16,7 +16,7 @@ import nvwp
 
 TU = 'drivers/inst_dims.cpp'
 FLT = 'nano::'
-HDR = '/repo/include/nano/tensor/dims.h'
+HDR = astload.REPO + '/include/nano/tensor/dims.h'
 BOUND = 2 ** 62
 RANKS = (1, 2, 3, 4, 5)
 
